@@ -264,18 +264,19 @@ impl Compound {
             }
         }
 
-        // NB: reconstruct units if possible.
-        let der = lhs_der
-            .into_iter()
-            .map(|(u, p)| (u, p, 1))
-            .chain(rhs_der.into_iter().map(|(u, p)| (u, p, n)));
-
-        reconstruct(der, lhs, &mut names)?;
+        // NB: reconstruct units if possible. A unit is re-derived on the value
+        // of the operand it came from: the caller combines the two values
+        // afterwards, which only commutes with purely multiplicative
+        // conversions, not with the offset of a temperature scale.
+        reconstruct(lhs_der.into_iter().map(|(u, p)| (u, p, 1)), 1, lhs, &mut names)?;
+        reconstruct(rhs_der.into_iter().map(|(u, p)| (u, p, n)), n, rhs, &mut names)?;
         return Ok(Compound::new(names));
 
-        /// Reconstruct names.
+        /// Reconstruct names. `side` is the power with which `out` enters the
+        /// combined value (`1` for a factor, `-1` for a divisor).
         fn reconstruct(
             der: impl IntoIterator<Item = (Unit, i32, i32)>,
+            side: i32,
             out: &mut Rational,
             names: &mut BTreeMap<Unit, State>,
         ) -> Result<(), CompoundError> {
@@ -320,7 +321,7 @@ impl Compound {
                 if let Some(conversion) = unit.conversion() {
                     // NB: the unit has been re-derived with `mod_power`, so
                     // shed its multiples from the value in base units.
-                    apply_conversion(mod_power, true, out, conversion, names.len() == 1)?;
+                    apply_conversion(mod_power * side, true, out, conversion, names.len() == 1)?;
                 }
             }
 
